@@ -17,13 +17,14 @@ type pendInv struct {
 
 // FnResult is the outcome of generating the VCs of one root function.
 type FnResult struct {
-	Rel     string
-	Enc     *Enc
-	Obs     []*Obligation
-	Notes   []string
-	Assumed []string
-	Err     string
-	Instrs  int
+	Rel       string
+	Enc       *Enc
+	Obs       []*Obligation
+	Notes     []string
+	Assumed   []string
+	Unclaimed []string
+	Err       string
+	Instrs    int
 }
 
 func pkgRel(p *types.Package) string {
@@ -160,11 +161,24 @@ func genVCs(w *World, db *ContractDB, ct *Contract) (res *FnResult) {
 	if e.declared["ptrtype"] {
 		f.ptrTypeFacts()
 	}
+	var kept []item
 	for _, it := range e.items {
 		if it.ob != nil {
+			un := false
+			for _, u := range ct.Unclaimed {
+				if it.ob.Kind == u.Kind && strings.Contains(it.ob.Anchor, u.Sub) {
+					un = true
+					res.Unclaimed = append(res.Unclaimed, it.ob.Name+" -- "+u.Reason)
+				}
+			}
+			if un {
+				continue
+			}
 			res.Obs = append(res.Obs, it.ob)
 		}
+		kept = append(kept, it)
 	}
+	e.items = kept
 	for n := range e.notes {
 		res.Notes = append(res.Notes, n)
 	}
